@@ -112,11 +112,53 @@ class Worker:
         self.unlabelled = []    # (function, lineno) of unlabelled shared-map lines executed
         self.exc_frame = None
         self.budget = 0         # labelled lines the thread may still execute before handing the baton back
+        self.blocked = False    # waiting for a lock of the code under test
+        self.nblocked = 0
         self.thread = None
+
+
+class BatonLock:
+    """Stand-in for a module-level lock of strax.context during an interleaved run: a thread that would
+    block hands the baton back (status `blocked`) instead of blocking its OS thread, so the one-runner
+    discipline survives locks added to the code under test."""
+
+    def __init__(self, inter):
+        self.inter = inter
+        self.owner = None
+        self.depth = 0
+        self.fallback = threading.RLock()
+
+    def acquire(self, blocking=True, timeout=-1):
+        w = self.inter.current()
+        if w is None:
+            return self.fallback.acquire(blocking, timeout)
+        while self.owner is not None and self.owner != w.tid:
+            self.inter._blocked(w)
+        self.owner = w.tid
+        self.depth += 1
+        return True
+
+    def release(self):
+        w = self.inter.current()
+        if w is None:
+            return self.fallback.release()
+        self.depth -= 1
+        if self.depth == 0:
+            self.owner = None
+
+    __enter__ = acquire
+
+    def __exit__(self, *a):
+        self.release()
+
+
+_LOCK_TYPES = (type(threading.Lock()), type(threading.RLock()))
 
 
 class Interleaver:
     def __init__(self, timeout=120.0):
+        self.tls = threading.local()
+        self.shimmed = {}
         self.by_code, self.unlabelled_lines = resolve_labels()
         self.file = sctx.__file__
         self.cv = threading.Condition()
@@ -170,7 +212,32 @@ class Interleaver:
         w.trace.append(lab)
         self.steps.append((w.tid, lab))
 
+    def current(self):
+        return getattr(self.tls, "worker", None)
+
+    def _blocked(self, w):
+        with self.cv:
+            w.blocked = True
+            w.nblocked += 1
+            self.active = None
+            self.cv.notify_all()
+            while self.active != w.tid:
+                self.cv.wait()
+            w.blocked = False
+
+    def _install_lock_shims(self):
+        for name, val in list(vars(sctx).items()):
+            if isinstance(val, _LOCK_TYPES):
+                self.shimmed[name] = val
+                setattr(sctx, name, BatonLock(self))
+
+    def _remove_lock_shims(self):
+        for name, val in self.shimmed.items():
+            setattr(sctx, name, val)
+        self.shimmed = {}
+
     def _body(self, w):
+        self.tls.worker = w
         with self.cv:
             while self.active != w.tid:
                 self.cv.wait()
@@ -201,6 +268,7 @@ class Interleaver:
     def run(self, fns, segs, drain=True):
         """segs: run-length schedule [(tid, nsteps), ...]"""
         ws = [Worker(i, f) for i, f in enumerate(fns)]
+        self._install_lock_shims()
         for w in ws:
             w.thread = threading.Thread(target=self._body, args=(w,), daemon=True)
             w.thread.start()
@@ -211,20 +279,36 @@ class Interleaver:
                 if tid < len(ws) and not ws[tid].finished and n > 0:
                     self._give(ws[tid], n)
             if drain:
-                for w in ws:
-                    if not w.finished:
-                        self._give(w, 10 ** 9)
+                self._drain(ws)
         finally:
             # never leave threads behind
-            for w in ws:
-                if not w.finished:
-                    try:
-                        self._give(w, 10 ** 9)
-                    except RuntimeError:
-                        pass
+            try:
+                self._drain(ws)
+            except RuntimeError:
+                pass
+            self._remove_lock_shims()
         for w in ws:
             w.thread.join(timeout=self.timeout)
         return ws
+
+
+def _drain(self, ws):
+    """every thread to completion, in thread order; a thread blocked on a lock waits for its holder"""
+    for _ in range(10 * len(ws) + 10):
+        progress = False
+        for w in ws:
+            if not w.finished:
+                before = (len(w.trace), w.nblocked)
+                self._give(w, 10 ** 9)
+                if w.finished or (len(w.trace), w.nblocked) != before and not w.blocked:
+                    progress = True
+        if all(w.finished for w in ws):
+            return
+        if not progress:
+            raise RuntimeError("interleaver: deadlock, every unfinished thread is blocked on a lock")
+
+
+Interleaver._drain = _drain
 
 
 def rle_expand(segs):
